@@ -57,7 +57,8 @@ def texpr(draw, cx, depth=0, allow_array=False, allow_cv=True, allow_ref=False):
         return ["p", pointee(draw, cx, depth + 1)]
     if k == "r":
         t = pointee(draw, cx, depth + 1, allow_void=False)
-        return ["r", t]
+        # a third of the references are rvalue references (T&&): `T&` and `T&&` of one T are different types
+        return ["r", t, "rvalue"] if draw(st.integers(0, 2)) == 0 else ["r", t]
     if k == "cv":
         q = _pick(draw, ["c", "c", "v"])
         sub = texpr(draw, cx, depth + 1, allow_array=False, allow_cv=False)
@@ -244,6 +245,15 @@ def library(draw, lang="c", min_types=1, max_types=8, min_funcs=1, max_funcs=6, 
     for i in range(nv):
         vars_.append({"name": "var%d" % i, "type": texpr(draw, cx, 0, allow_array=True),
                       "tu": draw(st.integers(0, ntu - 1))})
+    if cxx and draw(st.integers(0, 2)) == 0:
+        # an lvalue and an rvalue reference to the same type in one library (two different types that differ in nothing
+        # but the reference kind)
+        base = ["n", _pick(draw, cx.byvalue())] if cx.byvalue() and draw(st.booleans()) else ["b", _pick(draw, M.BUILTINS)]
+        if draw(st.integers(0, 3)) == 0:
+            base = ["c", base]
+        funcs.append({"name": "fn%d" % nf, "ret": ["void"], "params": [{"name": "p0", "type": ["r", base]},
+                                                                      {"name": "p1", "type": ["r", base, "rvalue"]}],
+                      "variadic": False, "tu": draw(st.integers(0, ntu - 1)), "body": 0})
     m = {"lang": lang, "types": types, "funcs": funcs, "vars": vars_, "statics": []}
     if cxx:
         for f in funcs:
